@@ -148,6 +148,7 @@ func famCancel(w *World) {
 	}
 	w.tasks(fs...)
 	w.QuiesceStarted = true
+	w.stopLags()
 	sleep(maxTimeout + 30*time.Second) // let every handler finish its wait before judging what it saw
 	w.checkRelayWire(&relayTopo{relays: relays})
 	// ---- C14 oracles over the history ----
@@ -280,7 +281,9 @@ func famCancel(w *World) {
 						seen = l.EndSeenAt[1]
 					}
 				}
-				if seen != 0 && end > seen+5*w.Grid && hdl > seen+5*w.Grid {
+				// (the handler must have been in its wait by then: injected slowness between its
+				// entry and the start of the wait is not part of StallInWait)
+				if seen != 0 && h.WaitFrom <= seen && end > seen+5*w.Grid && hdl > seen+5*w.Grid {
 					w.eval("C14.ctx-on-connection-failure")
 					if !(h.CtxDoneInWait && h.CtxDoneAt <= seen+3*w.Grid) {
 						cutTime = seen
@@ -332,8 +335,17 @@ func famCancel(w *World) {
 			}
 		}
 	}
+	// every relayed call has ended by now at the caller; at the relays it may live on until
+	// the relay's own (clamped) timeout when the cancel was not passed on: let that pass,
+	// then every call a host started must have been ended (C09) - before anything is closed
+	w.QuiesceStarted = true
+	w.stopLags()
+	for _, l := range w.Net.Links {
+		l.Heal()
+	}
+	w.settle(4 * time.Minute)
 	for _, spy := range spies {
 		spy.checkEnded()
 	}
-	w.quiesce(4*time.Minute, true)
+	w.quiesce(time.Second, true)
 }
